@@ -3,6 +3,8 @@ Theorems (Properties/C13.v): reach_exact, reversed_spec, subgraph_spec, clone_id
 Correspondence: DiGraph methods on live objects vs the extracted model on the same presentation."""
 from common import *
 from graphgen import *
+import collections
+import props_c13_more as more
 LEVEL = 'proof'
 
 
@@ -42,7 +44,41 @@ ARG_FORMS = (('set', set), ('frozenset', frozenset), ('tuple', tuple), ('list', 
              ('list naming nodes twice', lambda xs: list(xs) + list(reversed(xs))[:2] + list(xs)[:1]))
 
 
-def one_case(V, E, X):
+class NodeBag(object):
+    """a user-defined re-iterable collection of nodes (sized, iterable, container) that is none of list/tuple/set/frozenset"""
+    def __init__(self, xs):
+        self._xs = list(xs)
+
+    def __iter__(self):
+        return iter(self._xs)
+
+    def __len__(self):
+        return len(self._xs)
+
+    def __contains__(self, v):
+        return v in self._xs
+
+
+def _as_range(xs):
+    return range(min(xs), max(xs) + 1) if xs and all(type(v) is int for v in xs) and sorted(xs) == list(range(min(xs), max(xs) + 1)) else None
+
+
+# re-iterable collections that are not list / tuple / set / frozenset (an isinstance test on the argument must not change the
+# answer): tried on get_reachable_set_from AND get_subgraph; a maker returning None means 'not applicable to this X'
+CONTAINER_FORMS = (('dict keys view', lambda xs: dict.fromkeys(xs).keys()), ('dict', lambda xs: dict.fromkeys(xs)),
+                   ('deque', lambda xs: collections.deque(xs)), ('user-defined collection', NodeBag),
+                   ('range', _as_range), ('dict values view', lambda xs: dict(enumerate(xs)).values()))
+# one-shot iterables: get_subgraph reads its argument ONCE (set(nodes)), so these are legitimate there
+# (get_reachable_set_from reads it twice: list(nodes), set(nodes) - containers only)
+ONESHOT_FORMS = (('iterator', iter), ('generator expression', lambda xs: (v for v in xs)),
+                 ('filter object', lambda xs: filter(lambda v: True, xs)), ('map object', lambda xs: map(lambda v: v, xs)),
+                 ('reversed iterator', lambda xs: reversed(xs)), ('itertools.chain', lambda xs: itertools.chain(xs[:1], xs[1:])),
+                 ('generator naming nodes twice', lambda xs: (v for v in xs + xs[:2])))
+SUB_EXTRA_FORMS = CONTAINER_FORMS + ONESHOT_FORMS
+
+
+def one_case(V, E, X, rot=None):
+    """rot: which of the extra argument forms this case tries (None: all of them - replay)"""
     from pyModelChecking.graph import DiGraph
     G = DiGraph(V=V, E=E)
     s0, i0 = snap(G), ids(G)
@@ -120,6 +156,41 @@ def one_case(V, E, X):
                 forms_bad.append('get_subgraph(%s): %s' % (form, r2[1] if r2[0] != 'ok' else gset(r2[1])))
             elif (list(arg) if form in ORDERED_FORMS else set(arg)) != keep:
                 forms_bad.append('get_subgraph: %s argument was modified' % form)
+    # ... nor on whether it is one of list / tuple / set / frozenset at all: other re-iterable collections (both operations) and
+    # one-shot iterables (get_subgraph only) - one form of each kind per case, in rotation
+    xs = list(X)
+    if obs['reach'][0] == 'ok':
+        for form, mk in (CONTAINER_FORMS if rot is None else [CONTAINER_FORMS[rot % len(CONTAINER_FORMS)]]):
+            arg = mk(xs)
+            if arg is None:
+                continue
+            keep = list(arg)
+            r2 = qcall(lambda: G.get_reachable_set_from(arg))
+            if r2[0] != 'ok' or sorted(r2[1]) != obs['reach'][1]:
+                forms_bad.append('get_reachable_set_from(%s): %s' % (form, r2[1] if r2[0] != 'ok' else sorted(r2[1])))
+            elif list(arg) != keep:
+                forms_bad.append('%s argument was modified' % form)
+            elif r2[1] is arg:
+                forms_bad.append('the result IS the caller\'s %s object' % form)
+    if obs['sub'][0] == 'ok':
+        for form, mk in (SUB_EXTRA_FORMS if rot is None else [SUB_EXTRA_FORMS[rot % len(SUB_EXTRA_FORMS)],
+                                                                 ONESHOT_FORMS[rot % len(ONESHOT_FORMS)]]):
+            arg = mk(xs)
+            if arg is None:
+                continue
+            r2 = qcall(lambda: G.get_subgraph(arg))
+            if r2[0] != 'ok' or gset(r2[1]) != obs['sub'][1]:
+                forms_bad.append('get_subgraph(%s): %s' % (form, r2[1] if r2[0] != 'ok' else gset(r2[1])))
+    # collections G itself hands out: nodes() (a live view of G's own dictionary) and sources() (a generator over it)
+    want_all = (sorted(G._next), sorted((a, b) for a, ds in G._next.items() for b in ds))
+    srcs = set(a for a, ds in G._next.items() if ds)
+    for what, fn, want in (('get_reachable_set_from(G.nodes())', lambda: sorted(G.get_reachable_set_from(G.nodes())), want_all[0]),
+                           ('get_subgraph(G.nodes())', lambda: gset(G.get_subgraph(G.nodes())), want_all),
+                           ('get_subgraph(G.sources())', lambda: gset(G.get_subgraph(G.sources())),
+                            (sorted(srcs), [(a, b) for a, b in want_all[1] if a in srcs and b in srcs]))):
+        q = qcall(fn)
+        if tuple(q) != ('ok', want):
+            forms_bad.append('%s gives %s, expected %s' % (what, q[1], want))
     for v in list(G._next)[:3]:
         internal = G.next(v)
         want = qcall(lambda: G.get_reachable_set_from(list(internal)))
@@ -211,11 +282,15 @@ FAMILIES = {
     # None / falsy nodes; distinct nodes with equal str() (1 next to '1'); cf. graphgen.NODE_FAMILIES
     'none_and_falsy': lambda i: [None, 0, '', (), frozenset(), -1, 'None'][i] if i < 7 else i,
     'equal_str': lambda i: [1, '1', (1,), '(1,)', Named(1), "'1'", 2][i] if i < 7 else 's%d' % i,
+    # node SETS that print alike although no two nodes do: {'a', 'b'} next to {'a b'} (joined / sorted / concatenated str())
+    'sets_printing_alike': lambda i: ['a', 'b', 'a b', 'ab', ('a', 'b'), 'b a', "a', 'b"][i] if i < 7 else 's%d' % i,
 }
 
 
-def exotic_case(family, n, E, X):
-    """same observations as one_case, in INDEX space; 'foreign' marks a node that is not one of G's node objects"""
+def exotic_case(family, n, E, X, Q=(), edit=None):
+    """same observations as one_case, in INDEX space; 'foreign' marks a node that is not one of G's node objects.
+    Q: further node sets asked one after the other on the SAME graph object (an answer may not depend on what was asked
+    before); edit: an edge (a, b) added in place afterwards, then Q is asked again (returns the new presentation too)"""
     from pyModelChecking.graph import DiGraph
     objs = [FAMILIES[family](i) for i in range(n)]
     extra = FAMILIES[family](n + 7)                       # a node object that is not in G
@@ -251,8 +326,48 @@ def exotic_case(family, n, E, X):
         q = call(lambda: [sorted((num(d) for d in C.next(o)), key=str) for o in objs])
         obs['clone_next'] = q
         obs['clone_shares'] = any(C._next[k] is G._next.get(k) for k in C._next if k in G._next)
+    def ask(q):
+        qo = [objs[i] if i < n else extra for i in q]
+        r1 = call(lambda: G.get_reachable_set_from(list(qo)))
+        r2 = call(lambda: G.get_subgraph(list(qo)))
+        return [['ok', sorted((num(o) for o in r1[1]), key=str)] if r1[0] == 'ok' else list(r1),
+                ['ok', [list(x) for x in nset(r2[1])]] if r2[0] == 'ok' else list(r2)]
+    obs['seq'] = [ask(q) for q in Q]
     obs['unchanged'] = (nset(G) == before)
+    obs['g2'] = None
+    if edit is not None:
+        r = call(lambda: G.add_edge(objs[edit[0]], objs[edit[1]]))
+        obs['edit'] = r[0] if r[0] == 'ok' else r[1]
+        obs['g2'] = [[num(k), [num(d) for d in ds]] for k, ds in G._next.items()]
+        obs['seq2'] = [ask(q) for q in Q]
     return g, obs
+
+
+def exotic_seq_cmds(g, obs, Q):
+    out = []
+    for p in (g, obs.get('g2')):
+        if p is not None:
+            for q in Q:
+                out += [['reach', p, list(q)], ['sub', p, list(q)]]
+    return out
+
+
+def exotic_seq_bad(obs, Q, outs):
+    """first query of the sequence whose answer differs from the model on the graph as it was at that moment"""
+    k = 0
+    for nm, when in (('seq', 'asked after the earlier ones'), ('seq2', 'asked again after add_edge')):
+        if nm == 'seq2' and obs.get('g2') is None:
+            break
+        for q, (got_r, got_s) in zip(Q, obs[nm]):
+            o_r, o_s = outs[k], outs[k + 1]
+            k += 2
+            want_r = ['ok', sorted(ints(o_r[1]), key=str)] if o_r[0] == 'ok' else ['err', str(o_r[1])]
+            if list(got_r) != want_r:
+                return 'get_reachable_set_from(%s) %s gives %s; model: %s' % (q, when, got_r, want_r)
+            mn, me = mset(o_s)
+            if got_s[0] != 'ok' or [sorted(got_s[1][0], key=str), sorted(map(list, got_s[1][1]), key=str)] != [sorted(mn, key=str), sorted(map(list, me), key=str)]:
+                return 'get_subgraph(%s) %s gives %s; model: %s' % (q, when, got_s, [mn, me])
+    return None
 
 
 def run_exotic(R):
@@ -265,18 +380,25 @@ def run_exotic(R):
             X = rng.sample(range(n), rng.randint(0, n))
             if rng.random() < 0.2:
                 X.append(n)                      # a foreign node object
-            cases.append((family, n, E, X))
+            # the same graph object is asked several node sets in a row: every single node, two random sets, X again
+            Q = [[i] for i in range(n)]
+            rng.shuffle(Q)
+            Q += [rng.sample(range(n + 1), rng.randint(0, n)) for _ in range(2)] + [list(X)]
+            free = [(a, b) for a in range(n) for b in range(n) if (a, b) not in E]
+            cases.append((family, n, E, X, Q, rng.choice(free) if free and rng.random() < 0.7 else None))
     cmds, meta = [], []
-    for (family, n, E, X) in cases:
-        g, obs = exotic_case(family, n, E, X)
-        cmds += [['reach', g, X], ['rev', g], ['sub', g, X], ['clone', g]]
-        meta.append((family, n, E, X, obs, g))
+    for (family, n, E, X, Q, edit) in cases:
+        g, obs = exotic_case(family, n, E, X, Q, edit)
+        at = len(cmds)
+        cmds += [['reach', g, X], ['rev', g], ['sub', g, X], ['clone', g]] + exotic_seq_cmds(g, obs, Q)
+        meta.append((family, n, E, X, obs, g, Q, edit, at))
     outs = model_batch_parallel(cmds)
     hist = {}
-    for i, (family, n, E, X, obs, g) in enumerate(meta):
+    nseq = 0
+    for (family, n, E, X, obs, g, Q, edit, at) in meta:
         R.evaluations += 1
         hist[family] = hist.get(family, 0) + 1
-        o_reach, o_rev, o_sub, o_clone = outs[4 * i:4 * i + 4]
+        o_reach, o_rev, o_sub, o_clone = outs[at:at + 4]
         m = {'reach': ('ok', sorted(ints(o_reach[1]), key=str)) if o_reach[0] == 'ok' else ('err', o_reach[1]),
              'rev': ('ok', mset(o_rev)), 'sub': ('ok', mset(o_sub)), 'clone': ('ok', mset(o_clone))}
         m['clone_next'] = ('ok', [sorted(int(d) for d in ds) for _, ds in sorted(((int(k), ds) for k, ds in o_clone))])
@@ -298,12 +420,18 @@ def run_exotic(R):
                 bad.append('aliasing')
         if not obs['unchanged']:
             bad.append('G modified')
+        sb = exotic_seq_bad(obs, Q, outs[at + 4:])
+        nseq += len(Q) * (2 if obs.get('g2') is not None else 1)
+        if sb:
+            bad.append('several node sets asked in a row on one graph object: ' + sb)
         if bad:
             R.violation('graph operation on non-int node objects (%s) differs from the proved model: %s' % (family, ','.join(bad)),
-                        {'family': family, 'n': n, 'E': E, 'X': X, 'impl': obs, 'model': m, 'differs': bad, 'stream': 'exotic node objects'})
+                        {'family': family, 'n': n, 'E': E, 'X': X, 'Q': Q, 'edit': edit, 'impl': obs, 'model': m, 'differs': bad,
+                         'stream': 'exotic node objects'})
         elif len(E) > 0:
             R.nontriv(('exotic', family, n, tuple(sorted(E)), tuple(sorted(X))))
     R.cov['node_object_families'] = hist
+    R.cov['node_object_queries_in_a_row_on_one_graph'] = nseq
 
 
 # ---------- DiGraph.add_node / add_edge after construction, then the read-only API ----------
@@ -585,6 +713,16 @@ def run_large(R):
                   ('reversed.get_reachable_set_from([3])', lambda: sorted(G.get_reversed_graph().get_reachable_set_from([3])), [0, 1, 2, 3]),
                   ('reversed.get_reachable_set_from([n])', lambda: sorted(G.get_reversed_graph().get_reachable_set_from([n])), list(range(n + 1))),
                   ('get_subgraph(range(1000)) edges', lambda: sorted(G.get_subgraph(range(1000)).edges()), [(i, i + 1) for i in range(999)]),
+                  ('get_subgraph(range(1000)) nodes', lambda: sorted(G.get_subgraph(range(1000)).nodes()), list(range(1000))),
+                  # a handful of nodes out of thousands (nodes that keep no edge stay nodes of the subgraph)
+                  ('get_subgraph([5, 6, 20, n, h]) nodes and edges', lambda: list(gset(G.get_subgraph([5, 6, 20, n, h]))),
+                   [sorted([5, 6, 20, n, h]), sorted([(5, 6), (n, h)])]),
+                  ('get_subgraph([7]) nodes and edges', lambda: list(gset(G.get_subgraph([7]))), [[7], []]),
+                  ('get_subgraph(generator of 300 nodes) nodes and edges', lambda: list(gset(G.get_subgraph(i for i in range(100, 400)))),
+                   [list(range(100, 400)), [(i, i + 1) for i in range(100, 399)]]),
+                  ('get_reachable_set_from(range(n-3, n))', lambda: sorted(G.get_reachable_set_from(range(n - 3, n))), list(range(h, n + 1))),
+                  ('get_reachable_set_from(G.nodes())', lambda: sorted(G.get_reachable_set_from(G.nodes())), list(range(n + 1))),
+                  ('clone nodes', lambda: sorted(G.clone().nodes()), list(range(n + 1))),
                   ('clone edges', lambda: sorted(G.clone().edges()), sorted(E))]
         for what, fn, want in checks:
             R.evaluations += 1
@@ -613,12 +751,26 @@ def run(R):
               'foreign node) / reversed / clone / nodes / edges / sources / next and compared with the model on that object\'s '
               'current presentation; each edit / derivation is compared with the model (add_edge_r, add_node_r, reversed, '
               'subgraph, clone); all result objects of the history are held to the end (values unchanged, pairwise distinct '
-              'cells). Node-object stream: + None / falsy nodes and distinct nodes with equal str()')
+              'cells). Node-object stream: + None / falsy nodes and distinct nodes with equal str(). '
+              'Second audit: (a) per case, in rotation, X is also passed as a re-iterable collection that is none of list / tuple / '
+              'set / frozenset (dict keys / values view, dict, deque, user-defined collection, range) to reach AND subgraph, and as a '
+              'one-shot iterable (iterator, generator, filter, map, reversed, chain) to get_subgraph; G.nodes() and G.sources() '
+              'themselves are passed back to G; (b) node-object stream: each graph OBJECT is asked a sequence of node sets in a row '
+              '(every single node, random sets, X again: reach and subgraph of each vs the model), then an edge is added in place and '
+              'the sequence is asked again (model on the new presentation); + family of node SETS that print alike; (c) stream '
+              '"medium": 16..200-node graphs (ring, chords, sparse, star, chains with isolated nodes, dense) with requests from one '
+              'node to all nodes (incl. <= 1/16 of the graph, nodes that keep no edge, foreign nodes, ranges, one-shot forms), full '
+              'node AND edge sets vs the model; the large stream compares node sets too and asks a handful of nodes out of '
+              'thousands; (d) stream "subclasses": the operations on instances of classes derived from DiGraph (constructor with a '
+              'required / keyword-only argument, other argument order, constructor that adds a node, extra attributes, the '
+              'library\'s Kripke and LTL tableau) vs the model, results edited afterwards, G unchanged')
     rng = R.rng
     run_exotic(R)
     run_mutators(R)
     run_chains(R)
     run_large(R)
+    more.run_medium(R)
+    more.run_subclasses(R)
     cases = []
     for n in range(0, 4):
         nodes = list(range(n))
@@ -644,8 +796,8 @@ def run(R):
         cases.append((V, rand_digraph(rng, n), X))
     cmds, meta = [], []
     with contextlib.redirect_stdout(io.StringIO()):
-        for (V, E, X) in cases:
-            G, obs = one_case(V, E, X)
+        for rot, (V, E, X) in enumerate(cases):
+            G, obs = one_case(V, E, X, rot)
             g = obs.pop('presentation')
             cmds += [['reach', g, X], ['rev', g], ['sub', g, X], ['clone', g], ['mkg', list(V), [list(e) for e in E]]]
             meta.append((V, E, X, obs, g))
@@ -673,7 +825,7 @@ def run(R):
             bad.append('results not independent: ' + '; '.join(obs['results_independent']))
         if bad:
             R.violation('graph operation differs from the proved model: %s' % ','.join(bad),
-                        {'V': V, 'E': E, 'X': X, 'impl': obs, 'model': m, 'differs': bad})
+                        {'V': V, 'E': E, 'X': X, 'rot': i, 'impl': obs, 'model': m, 'differs': bad})
             continue
         nodes_all = set(int(k) for k, _ in g)
         nt = False
@@ -685,7 +837,9 @@ def run(R):
             R.nontriv((tuple(V), tuple(sorted(E)), tuple(sorted(X))))
             R.sample({'V': V, 'E': E, 'X': X, 'reach': obs['reach'][1] if obs['reach'][0] == 'ok' else obs['reach'], 'subgraph': obs['sub'][1]})
     R.cov['distribution'] = {'runtime_errors_expected': sum(1 for m_ in meta if m_[3]['reach'][0] == 'err')}
-    R.cov['per_case_observers'] = {'argument_forms_reach_and_subgraph': [f for f, _ in ARG_FORMS],
+    R.cov['per_case_observers'] = {'argument_forms_reach_and_subgraph': [f for f, _ in ARG_FORMS + CONTAINER_FORMS],
+                                   'one_shot_forms_subgraph_only': [f for f, _ in ONESHOT_FORMS],
+                                   'collections_handed_out_by_G_passed_back': ['nodes()', 'sources()', 'next(v)'],
                                    'held_result_objects_reread_at_end': True, 'operations_run_on_clone': 4,
                                    'cases_where_the_repeating_list_names_an_existing_node_twice': sum(1 for m_ in meta if any(x in m_[0] for x in m_[2]))}
     R.exhaustive = False
@@ -699,6 +853,12 @@ def replay(R, data):
         run_large(R)
         print('large graphs re-run: %d violation(s)' % (len(R.violations) - n0))
         return
+    if d.get('stream') in ('medium', 'subclasses'):
+        n = (more.run_medium if d['stream'] == 'medium' else more.run_subclasses)(R, only=d['case'])
+        print('case:', {k: v for k, v in d['case'].items() if k not in ('V', 'E')}, '- %d violation(s)' % n)
+        if n:
+            print('disagreement:', R.violations[-1]['what'])
+        return
     if d.get('stream') == 'histories':
         what = run_chains(R, only=d['chain'])
         print('history:', d['chain'])
@@ -709,10 +869,13 @@ def replay(R, data):
         run_mutators(R)
         return
     if d.get('stream') == 'exotic node objects':
-        g, obs = exotic_case(d['family'], d['n'], [tuple(e) for e in d['E']], d['X'])
+        Q = d.get('Q', [])
+        g, obs = exotic_case(d['family'], d['n'], [tuple(e) for e in d['E']], d['X'], Q, d.get('edit'))
         print('impl :', obs)
         print('model:', model_batch([['reach', g, d['X']], ['rev', g], ['sub', g, d['X']], ['clone', g]]))
-        if obs['clone'][0] != 'ok' or obs['clone_next'][0] != 'ok' or any('foreign' in str(x) for x in obs['clone'][1][0]):
+        sb = exotic_seq_bad(obs, Q, model_batch(exotic_seq_cmds(g, obs, Q)))
+        print('node sets asked in a row:', sb or 'agree with the model')
+        if sb or obs['clone'][0] != 'ok' or obs['clone_next'][0] != 'ok' or any('foreign' in str(x) for x in obs['clone'][1][0]):
             R.violation('replayed', d)
         return
     G, obs = one_case(d['V'], [tuple(e) for e in d['E']], d['X'])
